@@ -1528,6 +1528,12 @@ func (h *Hub) disconnectByRoomSessionId(ctx context.Context, roomSessionId strin
 		return
 	}
 
+	if session.Backend().Id() != backend.Id() {
+		// Room session ids are only unique per backend, the other session
+		// belongs to a different one.
+		return
+	}
+
 	log.Printf("Closing session %s because same room session %s connected", session.PublicId(), roomSessionId)
 	session.LeaveRoom(false)
 	switch sess := session.(type) {
